@@ -1,4 +1,5 @@
 import Solvor.Gen.Kernels
+import Solvor.Gen.LubyKernels
 /-!
 Sat: executable models and Boolean checkers (no Mathlib imports).
 
